@@ -73,7 +73,15 @@ ClausesInstSubst(e) ==
     subst_objective |-> J.obj = W.obj,
     subst_constraints |-> DOMAIN J.cons = DOMAIN W.cons /\ \A c \in DOMAIN W.cons \cap DOMAIN J.cons : J.cons[c].f = W.cons[c].f,
     deps_recorded |-> J.deps = W.deps,
-    rest_unchanged |-> SameExceptFns(I, J) /\ J.vars = I.vars ]
+    \* variables are untouched, except that an implementation may keep the recorded fixed value of a DEPENDENT variable
+    \* in step with its definition: cleared, or set to the value of a definition that mentions no variable
+    rest_unchanged |-> /\ SameExceptFns(I, J) /\ DOMAIN J.vars = DOMAIN I.vars
+                       /\ \A v \in DOMAIN I.vars :
+                            /\ [J.vars[v] EXCEPT !.fixed = I.vars[v].fixed] = I.vars[v]
+                            /\ J.vars[v].fixed # I.vars[v].fixed =>
+                                  /\ v \in DOMAIN W.deps
+                                  /\ \/ J.vars[v].fixed = <<>>
+                                     \/ (Ids(W.deps[v]) = {} /\ J.vars[v].fixed = << PEval(W.deps[v], <<>>) >>) ]
 \* every observed iteration order of the dependency map gives the reference result
 ClausesDepsOrder(e) ==
   LET raw == e.in.inst  st == St(e.in.st)  rej == SolRejects(raw, st) IN
@@ -216,6 +224,15 @@ ClausesQubo(e) ==
         \A x \in [ids -> {Zero, One}] : PEval(q, x) = PEval(I.obj, x) ]
 
 \* ---- C12 : log encoding ------------------------------------------------------------------------------------
+\* the encoded variable itself stays as it is, except that its bound may be replaced by another finite interval that
+\* contains exactly the same integers (e.g. the integer hull [ceil(l), floor(u)])
+SameVarButBound(nv, ov, lo, hi) ==
+  /\ [nv EXCEPT !.bound = ov.bound] = ov
+  /\ nv.bound # ov.bound => (nv.bound # <<>> /\ Valid(nv.bound[1]) /\ IsFin(nv.bound[1].lo) /\ IsFin(nv.bound[1].hi)
+                               /\ RCeil(nv.bound[1].lo) = lo /\ RFloor(nv.bound[1].hi) = hi)
+SameButBound(J, I, v, lo, hi) == /\ [J EXCEPT !.vars = I.vars] = I /\ DOMAIN J.vars = DOMAIN I.vars
+                                 /\ \A x \in DOMAIN I.vars \ {v} : J.vars[x] = I.vars[x]
+                                 /\ SameVarButBound(J.vars[v], I.vars[v], lo, hi)
 ClausesLogEncode(e) ==
   LET pre == e.in.inst  v == e.in.vid  I == AbsI(pre)
       known == v \in DOMAIN I.vars
@@ -241,9 +258,10 @@ ClausesLogEncode(e) ==
   IF mustfail THEN [ no_hang_no_panic |-> TRUE, error_iff |-> FALSE ]
   ELSE
   [ no_hang_no_panic |-> TRUE, error_iff |-> TRUE,
-    constant_case |-> lo = hi => (new = {} /\ p = PConst(R(lo)) /\ J = I),
+    constant_case |-> lo = hi => (new = {} /\ p = PConst(R(lo)) /\ SameButBound(J, I, v, lo, hi)),
     registered |-> /\ UniqueVarIds(post) /\ Len(post.vars) = Len(pre.vars) + Cardinality(new)
-                   /\ \A x \in DOMAIN I.vars : J.vars[x] = I.vars[x]
+                   /\ \A x \in DOMAIN I.vars \ {v} : J.vars[x] = I.vars[x]
+                   /\ SameVarButBound(J.vars[v], I.vars[v], lo, hi)
                    /\ \A x \in new : /\ J.vars[x].kind = "binary" /\ J.vars[x].bound = << [lo |-> Zero, hi |-> One] >>
                                      /\ J.vars[x].fixed = <<>>
                                      /\ Len(J.vars[x].meta.subs) >= 1 /\ J.vars[x].meta.subs[1] = v
@@ -298,14 +316,18 @@ ClausesSlack(e, convert) ==
   ELSE LET s == CHOOSE x \in new : TRUE  sv == J.vars[s]
            rows == e.out.table
            U == IF sv.bound # <<>> /\ IsFin(sv.bound[1].hi) THEN RFloor(sv.bound[1].hi) ELSE -1
+           L0 == IF sv.bound # <<>> /\ IsFin(sv.bound[1].lo) THEN RCeil(sv.bound[1].lo) ELSE 0
            rowsOf(x) == { i \in DOMAIN rows : St(rows[i].x) = x }
            feas(i) == rows[i].r.tag = "ok" /\ rows[i].r.feasible IN
   [ no_panic |-> TRUE,
-    slack_var |-> /\ Cardinality(new) = 1 /\ sv.kind = "integer" /\ sv.bound # <<>> /\ sv.bound[1].lo = Zero
-                  /\ IsFin(sv.bound[1].hi) /\ sv.bound[1].hi[2] = 1 /\ U >= 0 /\ sv.meta.subs = <<c>> /\ sv.fixed = <<>>
-                  /\ (~convert => U = e.in.ub) /\ (convert => U <= e.in.max),
+    \* one new integer-valued variable (kind integer, or binary when its range lies in {0,1}) with a finite integral bound
+    \* [L0, U], 0 <= L0; for add_integer_slack the bound is the caller's [0, ub]; for the conversion its range respects the limit
+    slack_var |-> /\ Cardinality(new) = 1 /\ sv.kind \in {"integer", "binary"} /\ sv.bound # <<>>
+                  /\ IsFin(sv.bound[1].lo) /\ sv.bound[1].lo[2] = 1 /\ IsFin(sv.bound[1].hi) /\ sv.bound[1].hi[2] = 1
+                  /\ 0 <= L0 /\ L0 <= U /\ (sv.kind = "binary" => U <= 1) /\ sv.meta.subs = <<c>> /\ sv.fixed = <<>>
+                  /\ (~convert => (L0 = 0 /\ U = e.in.ub)) /\ (convert => U - L0 <= e.in.max),
     equality_kind |-> c \in J.active /\ J.cons[c].eq = (IF convert THEN "eq" ELSE "le") /\ J.cons[c].meta = con.meta,
-    table_complete |-> \A x \in pts : { rows[i].s : i \in rowsOf(x) } = { R(k) : k \in 0..U },
+    table_complete |-> \A x \in pts : { rows[i].s : i \in rowsOf(x) } = { R(k) : k \in L0..U },
     projection |-> \A x \in pts : holds(x) <=> \E i \in rowsOf(x) : feas(i),
     function_kept |-> c \in DOMAIN J.cons /\ [ m \in DOMAIN J.cons[c].f \ {<<s>>} |-> J.cons[c].f[m] ] = con.f
                                           /\ \A m \in DOMAIN J.cons[c].f : s \in Range(m) => m = <<s>>,
